@@ -1,0 +1,6 @@
+//go:build !verif
+
+package parser
+
+// verifParserGet is a no-op unless built with the `verif` tag.
+func verifParserGet(*parser) {}
